@@ -107,7 +107,7 @@ inline const char* getter_name(int kind, bool ordef) {
 }
 
 inline std::string render_op(const c19_op& o) {
-    std::string m = o.scope ? std::string("mock(\"") + o.scope + "\")." : std::string("mock().");
+    std::string m = o.scope == C19_KEPT ? std::string("H.") : o.scope ? std::string("mock(\"") + o.scope + "\")." : std::string("mock().");
     auto q = [](const char* s) { return s ? "\"" + vf::esc(s) + "\"" : std::string("NULL"); };
     switch (o.code) {
     case C19_STRICT: return m + "strictOrder";
@@ -131,6 +131,7 @@ inline std::string render_op(const c19_op& o) {
     case C19_INSTALL_CMP: return m + "installComparator(" + q(o.type) + (o.n == 2 ? ",re-entrant R-functions)" : o.n ? ",U-functions)" : ",T-functions)");
     case C19_INSTALL_CPY: return m + "installCopier(" + q(o.type) + (o.n == 2 ? ",re-entrant R-copy)" : o.n ? ",U-copy)" : ",T-copy)");
     case C19_REMOVE_ALL: return m + "removeAllComparatorsAndCopiers";
+    case C19_SELECT: return "H = " + m.substr(0, m.size() - 1);
     case C19_E_PARAM: return " .withParameter(" + q(o.name) + "," + (o.type ? q(o.type) + "," : std::string()) + render_val(o.v) + ")";
     case C19_E_OUT: return " .withOutputParameterReturning(" + q(o.name) + "," + sym(o.v.p) + vf::fmt(",%zu)", o.v.size);
     case C19_E_OUT_TYPED: return " .withOutputParameterOfTypeReturning(" + q(o.type) + "," + q(o.name) + "," + sym(o.v.p) + ")";
@@ -184,6 +185,7 @@ inline const char* family(const c19_op& o) {
     case C19_INSTALL_CMP: return "installComparator";
     case C19_INSTALL_CPY: return "installCopier";
     case C19_REMOVE_ALL: return "removeAllComparatorsAndCopiers";
+    case C19_SELECT: return "select";
     case C19_E_PARAM: return "expected.withParameter";
     case C19_E_OUT: case C19_E_OUT_TYPED: case C19_E_UNMOD: return "expected.withOutputParameter";
     case C19_E_IGNORE: return "expected.ignoreOtherParameters";
@@ -272,7 +274,11 @@ inline void obs_value(c19_obs* o, const MockNamedValue& v) {
 }
 
 typedef void (*cppfn)();
-inline MockSupport& support(const c19_op& op) { return op.scope ? mock(op.scope) : mock(); }
+inline MockSupport* g_kept_support;
+inline MockSupport& support(const c19_op& op) {
+    if (op.scope == C19_KEPT) return *g_kept_support;
+    return op.scope ? mock(op.scope) : mock();
+}
 
 inline void run_cpp(const c19_op* ops, int from, int to, c19_obs* obs, unsigned char (*out)[C19_SLOTSIZE]) {
     static MockExpectedCall* e; static MockActualCall* a;
@@ -343,6 +349,7 @@ inline void run_cpp(const c19_op* ops, int from, int to, c19_obs* obs, unsigned 
         case C19_INSTALL_CMP: support(op).installComparator(op.type, *g_cmp[op.n > 2 ? 0 : op.n]); break;
         case C19_INSTALL_CPY: support(op).installCopier(op.type, *g_cpy[op.n > 2 ? 0 : op.n]); break;
         case C19_REMOVE_ALL: support(op).removeAllComparatorsAndCopiers(); break;
+        case C19_SELECT: g_kept_support = op.scope ? &mock(op.scope) : &mock(); break;
 
         case C19_E_PARAM:
             switch (v.kind) {
